@@ -76,6 +76,7 @@ type Exec struct {
 	slInv    map[string]bool
 	boxOf    map[string]boxedVal
 	curCall  *ssa.CallCommon
+	paramRefs []Term // references received as parameters (allocated at entry, hence always)
 	allSorts map[string]Sort // never rolled back
 }
 
@@ -268,7 +269,7 @@ func (x *Exec) resolveAddr(v ssa.Value) Addr {
 	switch a := v.(type) {
 	case *ssa.Alloc:
 		elem := a.Type().(*types.Pointer).Elem()
-		if !a.Heap && !x.escapes[a] {
+		if !x.escapes[a] {
 			return Addr{Kind: aLocal, Local: a, Typ: elem}
 		}
 		return x.ptrAddr(x.val(a), elem)
@@ -369,7 +370,7 @@ func (x *Exec) execInstr(in ssa.Instruction, st *State, pc Term) {
 	case *ssa.DebugRef:
 	case *ssa.Alloc:
 		elem := i.Type().(*types.Pointer).Elem()
-		if !i.Heap && !x.escapes[i] {
+		if !x.escapes[i] {
 			st.locals[i] = x.w.zeroOf(elem)
 			return
 		}
@@ -589,13 +590,20 @@ func (x *Exec) zeroArray(s Sort, zero Term) Term {
 	return a
 }
 
+// paramsStayAllocated: instances of allocation monotonicity for the references received as parameters
+func (x *Exec) paramsStayAllocated(al Term) {
+	for _, r := range x.paramRefs {
+		x.vc.assume(or(eq(r, tNil), sel(al, r)), "a parameter's referent stays allocated")
+	}
+}
+
 // sliceInv: type invariant of every slice value: 0 <= len <= cap
 func (x *Exec) sliceInv(sl Term) {
 	if x.slInv[sl.S] {
 		return
 	}
 	x.slInv[sl.S] = true
-	x.vc.assume(T(SBool, "(and (bvsle (_ bv0 64) %s) (bvsle %s %s) (bvsle %s (_ bv4611686018427387904 64)))", sliceLen(sl).S, sliceLen(sl).S, sliceCap(sl).S, sliceCap(sl).S), "slice type invariant 0 <= len <= cap")
+	x.vc.assume(T(SBool, "(and (bvsle (_ bv0 64) %s) (bvsle %s %s) (bvsle %s (_ bv4611686018427387904 64)) (=> (= %s nil) (= %s (_ bv0 64))))", sliceLen(sl).S, sliceLen(sl).S, sliceCap(sl).S, sliceCap(sl).S, sliceRef(sl).S, sliceCap(sl).S), "slice type invariant 0 <= len <= cap, nil backing array only with cap 0")
 }
 
 func (x *Exec) allocRef(st *State, hint string) Term {
@@ -1019,6 +1027,9 @@ func (x *Exec) restore(s snapshot) {
 	for k := range x.cardAx {
 		delete(x.cardAx, k) // axioms are re-assumed on next use (harmless duplicates avoided by truncation)
 	}
+	for k := range x.slInv {
+		delete(x.slInv, k)
+	}
 }
 
 func (x *Exec) incoming(b *ssa.BasicBlock) []edgeState {
@@ -1194,6 +1205,7 @@ func (x *Exec) enterLoop(li *loopInfo, st *State, pc Term) {
 		r := fmt.Sprintf("r!q%d", x.qn)
 		x.vc.assume(T(SBool, "(forall ((%s Ref)) (! (=> (select %s %s) (select %s %s)) :pattern ((select %s %s))))", r,
 			x.heapGet(st, allocHeap, arraySort(SRef, SBool)).S, r, hst.heaps[allocHeap].S, r, hst.heaps[allocHeap].S, r), "allocation is monotone across loop iterations")
+		x.paramsStayAllocated(hst.heaps[allocHeap])
 	}
 	if g, ok := x.rangeIdxInv(li, hst); ok {
 		x.vc.assume(implies(pc, g), "range index invariant")
